@@ -13,6 +13,7 @@ import (
 	"google.golang.org/protobuf/reflect/protoreflect"
 	"google.golang.org/protobuf/types/dynamicpb"
 
+	vestingtypes "github.com/cosmos/cosmos-sdk/x/auth/vesting/types"
 	assetprofiletypes "github.com/elys-network/elys/x/assetprofile/types"
 	leveragelptypes "github.com/elys-network/elys/x/leveragelp/types"
 	mastercheftypes "github.com/elys-network/elys/x/masterchef/types"
@@ -450,6 +451,20 @@ type SquatterAgent struct {
 
 func (a *SquatterAgent) Step(s *Sim) {
 	r := a.rng
+	if s.Cfg.rate("escrowdust") > 0 && s.Height > 5 && r.Float64() < 0.15 {
+		// predictable escrow addresses: a permanently locked base unit parked at the address of an
+		// order that does not exist yet
+		next := uint64(1)
+		for _, o := range s.N0.App.TradeshieldKeeper.GetAllPendingSpotOrder(s.Ctx()) {
+			if o.OrderId >= next {
+				next = o.OrderId + 1
+			}
+		}
+		u := s.user(r)
+		addr := tradeshieldtypes.SpotOrder{OrderId: next + uint64(r.IntN(2))}.GetOrderAddress()
+		s.SendTx(u, "squat/locked_dust_at_order_escrow", &vestingtypes.MsgCreatePermanentLockedAccount{FromAddress: u.Addr.String(), ToAddress: addr.String(), Amount: sdk.NewCoins(sdk.NewInt64Coin(DenomELYS, 1))})
+		s.Stats.Probe("locked_dust_at_future_order_escrow_submitted")
+	}
 	if a.done >= 2 || s.Height < 1 || r.Float64() >= s.Cfg.rate("squatter") {
 		return
 	}
